@@ -212,8 +212,13 @@ def main():
     print("vsim: property=%s tier=%s VERIF_SEED=%d runs=%d workers=%d repo=%s" % (
         machine.pid, args.tier, seed, nruns, args.workers, repo_path()))
     sys.stdout.flush()
-    merged = run_batch(args.pid, seed, args.tier, nruns, workers=args.workers, deadline_s=deadline,
-                       first_index=args.first)
+    try:
+        merged = run_batch(args.pid, seed, args.tier, nruns, workers=args.workers, deadline_s=deadline,
+                           first_index=args.first)
+    except BaseException:
+        import traceback
+        print("HARNESS-ERROR: the batch supervisor or a case generator failed\n%s" % traceback.format_exc()[-3000:])
+        return 2
     wall = time.time() - t_start
     if args.dump_digests:
         with open(args.dump_digests, "w") as f:
@@ -296,4 +301,12 @@ def main():
 
 
 if __name__ == "__main__":
-    sys.exit(main())
+    try:
+        rc = main()
+    except SystemExit:
+        raise
+    except BaseException:
+        import traceback
+        print("HARNESS-ERROR: uncaught exception in the check driver\n%s" % traceback.format_exc()[-3000:])
+        rc = 2
+    sys.exit(rc)
